@@ -84,6 +84,16 @@ def run(ck: Check) -> None:
             cnt = len(envgen.counting_keys(c["env"], c["auth"], gpg))
             thr = rng.choice(envgen.thresholds_for(rng, cnt, len(c["auth"])))
             base.append(("vsignable", c["env"], c["auth"], thr, gpg, lambda e, a=c["auth"], thr=thr, gpg=gpg: [e, a, thr, gpg]))
+    # directed: crowded signature maps (dozens to hundreds of entries that never count) next to fewer valid authorized signatures than required
+    import hashlib as _h
+    for N in (21, 25, 70, 300):
+        for gpg in (False, True):
+            ks_ = [gen.key(1), gen.key(2)]
+            env_ = gen.envelope({"crowded": N})
+            for j in range(N):
+                env_["signatures"][_h.sha256(b"c06-%d" % j).hexdigest() if j % 2 else "junk-%d" % j] = ({"signature": "00" * 64} if j % 2 else "x")
+            gen.sign_env(env_, ks_[:1], gpg, rng)
+            base.append(("vsignable", env_, [k.hex for k in ks_], 2, gpg, lambda e, a=[k.hex for k in ks_], gpg=gpg: [e, a, 2, gpg]))
     # root pairs
     for i in range(ck.n(120, 30)):
         ks = [gen.key(j) for j in rng.sample(range(8), rng.randint(1, 3))]
